@@ -187,9 +187,16 @@ func Run(run *mon.Run, cfg Config, checkFrames bool) Stats {
 	stop := make(chan struct{})
 	var bg sync.WaitGroup
 	bg.Add(2)
+	// In a bubble the two background loops end by themselves after 30 virtual seconds (a history lasts a fraction of one):
+	// while they run the bubble is never idle, so a wedged history would neither be a synctest deadlock nor reach
+	// drv.Bubble's virtual-time guard within any reasonable real time; once they have ended, it is a deadlock.
+	bgRounds := -1
+	if drv.InBubble() {
+		bgRounds = 150000
+	}
 	go func() {
 		defer bg.Done()
-		for v := 1; ; v++ {
+		for v := 1; v != bgRounds; v++ {
 			select {
 			case <-stop:
 				return
@@ -205,7 +212,7 @@ func Run(run *mon.Run, cfg Config, checkFrames bool) Stats {
 	active := map[string]int{} // channel -> last published number; every Receive uses channels of its own
 	go func() {
 		defer bg.Done()
-		for {
+		for round := 1; round != 2*bgRounds; round++ {
 			select {
 			case <-stop:
 				return
